@@ -34,7 +34,10 @@ def run(cx, chk):
     chk.rule("C10.R2", "admission predicate: rejection exactly on the true edge of lt(candidate key, probationary LRU key)")
     chk.rule("C10.R3", "access recording: exactly one increment(k) on every get/get_mut path before the lookups; only get/get_mut/purge touch the estimator; purge clears it")
     chk.rule("C10.R4", "the estimator is sized window + protected + probationary")
+    chk.rule("C10.R5", "non-use operations (peek*, contains, len, per-segment accessors, ...) reach no mutation: they neither promote nor refresh")
+    chk.rule("C10.R6", "purge empties every retained list of the cache")
     for cfg, F in cx.cfgs():
+        composite.policy_hygiene(cx, chk, cfg, F, "WTinyLFUCache", "C10.R5", "C10.R6")
         put(cx, chk, cfg, F)
         recording(cx, chk, cfg, F)
         ctor(cx, chk, cfg, F)
